@@ -49,13 +49,13 @@ func newArrayWithParser(parser *Parser) (*Array, error) {
 	}
 
 	// Gets all array messages
-	msgs := make([]*Message, arraySize)
+	msgs := make([]*Message, 0, min(arraySize, initialArrayCapacity))
 	for n := 0; n < arraySize; n++ {
 		msg, err := parser.Next()
 		if err != nil {
 			return nil, err
 		}
-		msgs[n] = msg
+		msgs = append(msgs, msg)
 	}
 	array := &Array{
 		index: 0,
